@@ -754,6 +754,12 @@ func (e *Engine) call(fi *fnInfo, st *State, in *ssa.Call) []*State {
 	} else if !cc.IsInvoke() {
 		if fv := e.eval(st, cc.Value); fv.k == vFunc {
 			callee = fv.fn
+			// a method expression used as a function value ((*Lexer).identToken) is a thunk around the method
+			if callee != nil && callee.Synthetic != "" && len(callee.FreeVars) == 0 {
+				if t := thunkTarget(callee); t != nil && t != callee && len(t.Params) == len(callee.Params) {
+					callee = t
+				}
+			}
 		}
 	}
 	if callee == nil && !cc.IsInvoke() && len(e.cfg.DynTargets) > 0 {
